@@ -86,6 +86,10 @@ def episode(prop, mon, subj, rng, nsteps, acc):
                 if subj.modes["flat_actions"]:
                     env.get_action_mask()
                 env.scenario.get_description()
+                env.generate_initial_state()
+                st_rng = np.random.get_state()
+                env.generate_random_initial_state()
+                np.random.set_state(st_rng)
             except Exception as e:      # noqa
                 acc.violation("informational_query_raised",
                               "informational_query_raised:" +
@@ -94,6 +98,14 @@ def episode(prop, mon, subj, rng, nsteps, acc):
         cur = subj.current()
         S = subj.lay.status(cur.tensor)
         i = pol.choose(S)
+        avoid = getattr(subj, "avoid_subnet", None)
+        if avoid is not None and k < 0.7 * nsteps:
+            # one-sided attack: stay out of one of the entrances for most of
+            # the episode, so that subnets are approached "from behind"
+            for _ in range(12):
+                if subj.descs[i]["target"][0] != avoid:
+                    break
+                i = pol.choose(S)
         succeed = rng.random() < p_succeed
         seed = subj.seed_for(i, succeed, rng)
         T = None
@@ -274,8 +286,13 @@ def run(prop, tier, seed, shard, nshards):
                 subj = Subject(sp, route=sp.origin.split(":")[1], **modes)
                 episode(prop, mon, subj, rng, z["steps"], acc)
             elif ctype == "ring":
-                sp = synth.ring(rng)
+                sp = synth.two_entrances(rng) if cid % 2 else synth.ring(rng)
                 subj = Subject(sp, route=sp.origin.split(":")[1], **modes)
+                pubs = [b for b in range(1, len(sp.subnets))
+                        if sp.topology[0][b]]
+                if len(pubs) >= 2 and (cid % 2 or rng.random() < 0.7):
+                    subj.avoid_subnet = rng.choice(pubs)
+                    acc.count("ring_cases_attacked_from_one_entrance")
                 episode(prop, mon, subj, rng, z["steps"], acc)
             elif ctype == "micro":
                 sp = synth.micro(rng)
